@@ -45,7 +45,7 @@ var Events []string
 
 func logf(format string, args ...any) {
 	if len(Events) < 10000 {
-		Events = append(Events, fmt.Sprintf(format, args...))
+		Events = append(Events, fmt.Sprintf(format, args...)+fmt.Sprintf(" @%d", int64(vsched.Elapsed())))
 	}
 }
 
@@ -58,7 +58,9 @@ type memListener struct {
 }
 
 func (l *memListener) accept() (*MemConn, error) {
-	vsched.Block("accept", func() bool { return len(l.queue) > 0 || l.closed })
+	if len(l.queue) == 0 && !l.closed {
+		vsched.Block("accept", func() bool { return len(l.queue) > 0 || l.closed })
+	}
 	if l.closed {
 		return nil, &net.OpError{Op: "accept", Net: l.network, Err: net.ErrClosed}
 	}
@@ -203,7 +205,11 @@ func OpenServerConns() int {
 func (c *MemConn) ID() int { return c.id }
 
 func (c *MemConn) Read(p []byte) (int, error) {
-	vsched.Block(fmt.Sprintf("conn%d.read", c.id), func() bool { return len(c.buf) > 0 || c.peerClosed || c.closed })
+	if len(c.buf) == 0 && !c.peerClosed && !c.closed {
+		// only an empty buffer is a scheduling point: reading bytes that have
+		// already arrived is a local step
+		vsched.Block(fmt.Sprintf("conn%d.read", c.id), func() bool { return len(c.buf) > 0 || c.peerClosed || c.closed })
+	}
 	if c.closed {
 		return 0, &net.OpError{Op: "read", Net: "mem", Err: net.ErrClosed}
 	}
